@@ -29,6 +29,7 @@ type Obligation struct {
 
 type Engine struct {
 	SumsOn   bool
+	sentinels map[string]bool
 	bsDone   bool
 	EntryPC  map[string][]*Term
 	knownSet map[string]bool
@@ -977,6 +978,28 @@ func (m *Machine) makeInterface(v Val, from, to types.Type) Val {
 	return &IfaceV{Dyn: from, V: v}
 }
 
+// sentinelErr is the value of a package-level error variable: positive, below the literal range of freshErr, and
+// different from every other sentinel (registered errors differ in codespace/code, errors.New values in identity).
+func (E *Engine) sentinelErr(short string) *Term {
+	name := "err_" + sanitize(short)
+	c := E.D.Const(name, SInt)
+	if E.sentinels == nil {
+		E.sentinels = map[string]bool{}
+	}
+	if !E.sentinels[name] {
+		E.D.Axiom(fmt.Sprintf("(and (> %s 0) (< %s 900))", c.S, c.S))
+		for other := range E.sentinels {
+			a, b := name, other
+			if b < a {
+				a, b = b, a
+			}
+			E.D.Axiom(fmt.Sprintf("(not (= %s %s))", a, b))
+		}
+		E.sentinels[name] = true
+	}
+	return c
+}
+
 // freshErr returns a new definitely-non-nil error (a positive literal, so err == nil folds syntactically).
 func (E *Engine) freshErr() *Term {
 	E.nerr++
@@ -1179,9 +1202,7 @@ func (m *Machine) loadGlobal(g *GlobalPtrV, t types.Type) Val {
 	name := g.Name
 	short := name[strings.LastIndex(name, ".")+1:]
 	if typeKey(t) == "error" || strings.HasPrefix(short, "Err") {
-		c := m.E.D.Const("err_"+sanitize(short), SInt)
-		m.E.D.Axiom(fmt.Sprintf("(and (> %s 0) (< %s 900))", c.S, c.S))
-		return c
+		return m.E.sentinelErr(short)
 	}
 	if s, ok := leafSortOf(t); ok {
 		switch {
@@ -1194,9 +1215,7 @@ func (m *Machine) loadGlobal(g *GlobalPtrV, t types.Type) Val {
 		return m.E.D.Const("g_"+sanitize(short), s)
 	}
 	if typeKey(t) == "*cosmossdk.io/errors.Error" {
-		c := m.E.D.Const("err_"+sanitize(short), SInt)
-		m.E.D.Axiom(fmt.Sprintf("(and (> %s 0) (< %s 900))", c.S, c.S))
-		return c
+		return m.E.sentinelErr(short)
 	}
 	return &OpaqueV{Tag: "global:" + name, Typ: t}
 }
